@@ -15,6 +15,8 @@ import time
 
 HERE = os.path.dirname(os.path.dirname(os.path.abspath(__file__)))
 MUT = os.path.join(HERE, "mutants")
+# VERIF_SNAPSHOT: run the checks from a frozen copy of /verif (so that /verif can be edited meanwhile)
+SNAP = os.environ.get("VERIF_SNAPSHOT", HERE)
 
 
 def run_one(patch, props, runs, workers, budget=None):
@@ -29,8 +31,8 @@ def run_one(patch, props, runs, workers, budget=None):
             env = dict(os.environ, OSU_SRC=os.path.join(scratch, "src"), VERIF_RUNS=str(runs), VERIF_WORKERS=str(workers),
                        VERIF_NO_EVIDENCE="1", VERIF_REPLAY_DIR=os.path.join(scratch, "replays"))
             t = time.time()
-            q = subprocess.run(["/venv/bin/python", os.path.join(HERE, "checks/run.py"), "--property", prop, "--tier", "quick",
-                                "--no-selftests"], env=env, capture_output=True, text=True, timeout=1800)
+            q = subprocess.run(["/venv/bin/python", os.path.join(SNAP, "checks/run.py"), "--property", prop, "--tier", "quick",
+                                "--no-selftests"], env=env, capture_output=True, text=True, timeout=1800, cwd=SNAP)
             clauses = sorted({ln.split("clause ")[1].split(" ")[0] for ln in q.stdout.splitlines() if ln.startswith("violation: clause ")})
             out[prop] = {"exit": q.returncode, "clauses": clauses, "wall_s": round(time.time() - t, 1),
                          "first": next((ln for ln in q.stdout.splitlines() if ln.startswith("violation:")), "")[:300]}
